@@ -61,8 +61,9 @@ let parse_case (s : string) : scn =
             done;
             routers := { rc_table = !tbl; rc_ips = ips; rc_nets = nets } :: !routers;
             incr ridx
-        | ["H"; net; ip; ml; gw] ->
-            hosts := { hc_net = ni net; hc_ip = ni ip; hc_mask = n_of_int (mask_of (ii ml)); hc_gw = ni gw } :: !hosts
+        | ["H"; net; ip; ml; gw; wild] ->
+            hosts := { hc_net = ni net; hc_ip = ni ip; hc_mask = n_of_int (mask_of (ii ml)); hc_gw = ni gw;
+                       hc_wild = (wild <> "0") } :: !hosts
         | ["D"; src; dst; ttl; len; _start; _exp] ->
             let t = ii ttl in
             dgrams := { d_src = ni src; d_dst = ni dst; d_ttl = n_of_int (if t < 0 then 30 else t);
